@@ -92,6 +92,18 @@ loop(F_RAFT, "RaftNode._handle_append_entries", 1,
     ("log-well-formed-and-committed-prefix-kept", lambda L: ae_log_ok(L.self, L.old(L.self))),
     ("pending-futures-stand-for-their-log-entries", lambda L: _futures_match_log(L.self))])
 
+# the repair of the stale-future defect (fixes/C11_drop-futures-of-truncated-entries.diff) adds
+# `for stale in range(idx, idx + removed): self._pending_futures.pop(stale, None)` after the truncation
+loop(F_RAFT, "RaftNode._handle_append_entries", 2, modifies=[("RaftNode", "_pending_futures")], inv=[
+    ("futures-of-the-removed-entries-dropped-so-far", lambda L: _futures_match_truncated(L.self, L.idx, L.removed, L.i))])
+
+# _try_advance_commit: outer loop scans candidate indices downwards (state changes only on the path that
+# breaks out, so the cut needs no state invariant); inner loop counts the followers whose match index covers n
+loop(F_RAFT, "RaftNode._try_advance_commit", 1, inv=[("scans-candidates-above-the-commit-index", lambda L: True)])
+loop(F_RAFT, "RaftNode._try_advance_commit", 2, inv=[
+    ("count-is-self-plus-visited-followers-at-or-above-n", lambda L: L.count == 1 + mk_num(
+        card_ge(match_val(L.self), L.visited.arr, zi(L.n))))])
+
 from specs.common import *  # noqa: E402,F401
 
 from happysimulator.components.consensus.log import Log, LogEntry  # noqa: E402
@@ -103,8 +115,35 @@ from happysimulator.core.sim_future import SimFuture  # noqa: E402
 PROPERTY = {
     "id": "C11",
     "level": "proof",
-    "trusted": ["heap typing of the fields declared in specs/C11.py and specs/common.py"],
+    "task_timeout": 3000,
+    "trusted": ["heap typing of the fields declared in specs/C11.py and specs/common.py (incl. the local types EnumTy, "
+                "Record, EventContext: RaftState stored as its int value; event metadata as a record with a presence set)",
+                "structural reading of list surgery in clauses (specs/C11.py nth / pyvc/comp.py _nth,_len): for in-range "
+                "indices append = concat-with-unit and slices = extract select the corresponding element of the source list",
+                "card_ge: cardinality of a finite set unfolded along its construction (empty -> 0, new element -> +1 if it qualifies)",
+                "pyvc/comp.py: `[f(e) for e in xs]` over a list of symbolic length is a list of the same length with "
+                "element j equal to f(xs[j]); `{a}` with a symbolic element is the singleton set"],
     "assumptions": COMMON_ASSUMPTIONS + [
+        "configuration: clusters of 3..5 nodes (2 <= len(_peers) <= 4, the range the property quantifies over); "
+        "election timeouts and heartbeat interval are non-negative",
+        "A-net (a delivered message was created by a sender): every Raft message a handler receives has the keys its sender "
+        "puts (proved on the senders: _start_election, _send_append_entries, the reply sites; Network.send is proved to copy "
+        "payload + source + destination; NetworkLink forwards context.copy()), AppendEntries entries carry indices "
+        "prev_log_index+1.. in order (proved: append_ok/mirrors), reply match_index >= 0 (proved: _ae_shape). 'source' and "
+        "'from' may be missing (handled).",
+        "cross-node theorem used as a precondition of _handle_append_entries (requires `leader-agrees-with-my-committed-"
+        "entries`): a leader of a term >= mine never disagrees with an entry I have committed (Leader Completeness + Log "
+        "Matching, composed on paper from the proved clauses L2/L3/L5/L6 + lemmas of part E; the call-site duty "
+        "`truncate_from(i) with i > commit_index` is discharged from it). Bounded native stand-in: PROPERTY['bounded'].",
+        "Log Matching for commands (same index and term => same command) is NOT used: clauses that compare an entry "
+        "the follower kept speak about terms, commands only where the handler wrote them",
+        "the state machine is any object whose apply() touches only its own state (stub KVStateMachine.apply: arbitrary "
+        "result, modifies _data); SimFuture.resolve is used through its stub (its requires are the L8 obligations); "
+        "random.uniform(a, b) returns any real between a and b",
+        "stored futures are allocated objects (typing; requires of submit)",
+        "crash / restart: a crashed node handles no event (Event.invoke skips it) and keeps its fields; every clause is "
+        "per handler invocation, so schedules with crashes are schedules with fewer deliveries",
+        "not decided here: the fault-free liveness sentence and the cross-node induction itself (DESIGN 3-C11 'reach')",
     ],
 }
 
@@ -672,10 +711,26 @@ def _futures_match_log(o):
     return forall(Int, body, "i")
 
 
+def _futures_match_truncated(o, idx, removed, i):
+    """inside the repair loop: the log is already cut back to idx-1 entries; a pending future either stands
+    for an entry that is still there, or belongs to a removed index that the loop has not reached yet"""
+    ents = log_entries(o)
+
+    def body(k):
+        f = fut_at(o, k)
+        e = ent_at(ents, k)
+        kept = ((k <= slen(ents)) & (k > o._last_applied) & (f.g_index == k)
+                & mk_bool(z3.And(zi(f.g_term) == LE.term(e), f.g_cmd.t == LE.command(e))))
+        return implies(fut_pending(o, k) & (k >= 1), kept | ((k >= idx + i) & (k < idx + removed)))
+    return forall(Int, body, "k")
+
+
 NODE_INV = [
     # configuration: the quantifier of the property ranges over clusters of 3..5 nodes
     ("cluster-of-3-to-5", lambda o: (2 <= slen(o._peers)) & (slen(o._peers) <= 4)),
     ("term-nonnegative", lambda o: o._current_term >= 0),
+    ("timing-parameters-nonnegative", lambda o: (0 <= o._election_timeout_min) & (0 <= o._election_timeout_max)
+        & (0 <= o._heartbeat_interval)),
     # L7: everything up to the commit index has been applied, in log order, each index once
     ("applied-exactly-the-committed-prefix", lambda o: (o._last_applied == commit_of(o))
         & (slen(o.g_applied) == o._last_applied)
@@ -760,13 +815,58 @@ fn(RaftNode, "_find_peer", args={"source_name": OPTSTR}, returns=OptRef(RaftNode
     ("pure", lambda s: unchanged(s, s.self))])
 FIND_PEER = (RaftNode, "_find_peer")
 
+def _old_or_dummy(field):
+    """frame entry for `<event field>.cancel()`: the event stored in `field`, if any"""
+    return lambda s: getattr(s.self, field) or new_object(Event)
+
+
+# L2 at the call site: forgetting the vote (voted_for = None) is only sound when the term really advances
 fn(RaftNode, "_step_down", args={"new_term": Int}, focus=node_focus,
+   modifies=["_current_term", "_state", "_voted_for", "_heartbeat_event", (_old_or_dummy("_heartbeat_event"), "_cancelled")],
    requires=[("only-to-a-newer-term", lambda s: s.new_term > s.self._current_term)],
    ensures=[
     ("adopts-term-as-follower-without-vote", lambda s: (s.self._current_term == s.new_term)
         & (state_of(s.self) == FOLLOWER) & mk_bool(OPTSTR.dt.is_none(voted(s.self)))),
     ("log-and-apply-state-untouched", lambda s: unchanged(s, s.self, "_last_applied", "_pending_futures", "g_applied")
         & unchanged(s, s.self._log))])
+STEP_DOWN = (RaftNode, "_step_down")
+
+
+def _timer_post(kind, field):
+    def post(s):
+        r = s.result
+        return (same(r.target, s.self) & (r.event_type == kind) & Not(r._cancelled) & r.daemon
+                & same(getattr(s.self, field), r) & (ns(r.time) >= now_ns(s.self)))
+    return post
+
+
+def _prev_timer_cancelled(field):
+    def post(s):
+        prev = getattr(s.old(s.self), field)
+        return True if prev is None else (same(prev, s.result) | prev._cancelled)
+    return post
+
+
+def _others_untouched(field):
+    names = [f for f in REG.classes[RaftNode].fields if f != field] + ["g_applied"]
+    return lambda s: unchanged(s, s.self, *names)
+
+
+fn(RaftNode, "_schedule_election_timeout", uses=[UNIFORM], returns=Ref(Event),
+   modifies=["_election_timeout_event", (_old_or_dummy("_election_timeout_event"), "_cancelled")],
+   requires=[("timeouts-nonnegative", lambda s: (0 <= s.self._election_timeout_min) & (0 <= s.self._election_timeout_max))],
+   ensures=[("arms-one-live-election-timer-for-itself-not-in-the-past", _timer_post("RaftElectionTimeout", "_election_timeout_event")),
+            ("previous-timer-cancelled", _prev_timer_cancelled("_election_timeout_event")),
+            ("rest-of-node-untouched", _others_untouched("_election_timeout_event"))])
+SCHED_ET = (RaftNode, "_schedule_election_timeout")
+
+fn(RaftNode, "_schedule_heartbeat", returns=Ref(Event),
+   modifies=["_heartbeat_event", (_old_or_dummy("_heartbeat_event"), "_cancelled")],
+   requires=[("interval-nonnegative", lambda s: 0 <= s.self._heartbeat_interval)],
+   ensures=[("arms-one-live-heartbeat-timer-for-itself-not-in-the-past", _timer_post("RaftHeartbeat", "_heartbeat_event")),
+            ("previous-timer-cancelled", _prev_timer_cancelled("_heartbeat_event")),
+            ("rest-of-node-untouched", _others_untouched("_heartbeat_event"))])
+SCHED_HB = (RaftNode, "_schedule_heartbeat")
 
 
 def next_index_positive(o):
@@ -842,7 +942,7 @@ def _log_untouched(s):
     return unchanged(s, s.self._log) & unchanged(s, s.self, "_last_applied", "g_applied", "_pending_futures")
 
 
-fn(RaftNode, "_start_election", uses=[SEND, UNIFORM], focus=node_focus, ensures=[
+fn(RaftNode, "_start_election", uses=[SEND, SCHED_ET], focus=node_focus, ensures=[
     ("candidate-of-the-next-term-with-exactly-its-own-vote", _election_started),
     ("asks-every-peer-once-with-own-term-and-last-log-position", _requests_to_all_peers),
     ("log-and-apply-state-untouched", _log_untouched)])
@@ -857,7 +957,7 @@ def _timeout_post(s):
                  _election_started(s) & _requests_to_all_peers(s))
 
 
-fn(RaftNode, "_handle_election_timeout", args={"event": Ref(Event)}, uses=[SEND, UNIFORM], focus=node_focus, ensures=[
+fn(RaftNode, "_handle_election_timeout", args={"event": Ref(Event)}, uses=[SEND, SCHED_ET], focus=node_focus, ensures=[
     ("cancelled-ignored--leader-only-rearms--otherwise-starts-election", _timeout_post),
     ("log-and-apply-state-untouched", _log_untouched)])
 
@@ -911,7 +1011,7 @@ def _rv_grant_recorded(s):
                    mk_bool(voted(s.self) == OPTSTR.dt.some(MSG.acc("candidate_id")(req))) & (s.self._current_term == mget(req, "term")))
 
 
-fn(RaftNode, "_handle_request_vote", args={"event": Ref(Event)}, uses=[SEND, UNIFORM, FIND_PEER], focus=node_focus,
+fn(RaftNode, "_handle_request_vote", args={"event": Ref(Event)}, uses=[SEND, SCHED_ET, STEP_DOWN, FIND_PEER], focus=node_focus,
    requires=[("well-formed-request", lambda s: mhas(md(s.event), "term", "candidate_id", "last_log_index", "last_log_term"))],
    ensures=[
     ("unknown-sender-ignored-else-exactly-one-reply", lambda s: ((n_sent(s) == 0) & unchanged(s, s.self)) | (n_sent(s) == 1)),
@@ -969,7 +1069,7 @@ def _leader_announces(s):
                                                    & append_ok(s.self, new.at(old.n + j.t), j)), "j"))
 
 
-fn(RaftNode, "_handle_vote_response", args={"event": Ref(Event)}, uses=[UNIFORM, (RaftNode, "_become_leader")], focus=node_focus,
+fn(RaftNode, "_handle_vote_response", args={"event": Ref(Event)}, uses=[SCHED_ET, STEP_DOWN, (RaftNode, "_become_leader")], focus=node_focus,
    requires=[("well-formed-response", lambda s: mhas(md(s.event), "term", "vote_granted"))],
    ensures=[
     ("newer-term-makes-follower-without-vote", _vr_newer_term),
@@ -1003,14 +1103,18 @@ def mirrors(E, ents, prev):
 def append_ok(o, elem, j):
     """the AppendEntries created for peer j: own term and id, prev = next_index-1 with its term, the
     whole log suffix after prev, own commit index"""
+    return append_ok_to(o, elem, peer_at(o, j).name)
+
+
+def append_ok_to(o, elem, follower):
     m = msg_of(elem)
     ents = log_entries(o)
     n = slen(ents)
-    prev = o._next_index.get(peer_at(o, j).name, 1) - 1
+    prev = o._next_index.get(follower, 1) - 1
     pterm = mk_num(z3.If(z3.And(zi(prev) >= 1, zi(prev) <= zi(n)), LE.term(ent_at(ents, prev)), z3.IntVal(0)))
     return ((kind_of(elem) == "RaftAppendEntries") & mhas(m, *APPEND_KEYS)
             & (mget(m, "term") == o._current_term) & (mget(m, "leader_id") == o.name) & (mget(m, "source") == o.name)
-            & (mget(m, "destination") == peer_at(o, j).name)
+            & (mget(m, "destination") == follower)
             & (mget(m, "prev_log_index") == prev) & (mget(m, "prev_log_term") == pterm)
             & (mget(m, "leader_commit") == commit_of(o))
             & mirrors(MSG.acc("entries")(m), ents, prev))
@@ -1040,7 +1144,7 @@ fn(RaftNode, "_send_append_entries", uses=[SEND], focus=node_focus, returns=EVEN
     ("node-state-untouched", lambda s: unchanged(s, s.self) & unchanged(s, s.self._log))])
 SEND_APPEND = (RaftNode, "_send_append_entries")
 
-fn(RaftNode, "_become_leader", uses=[SEND_APPEND, UNIFORM], focus=node_focus, returns=EVENTS,
+fn(RaftNode, "_become_leader", uses=[SEND_APPEND, SCHED_HB], focus=node_focus, returns=EVENTS,
    modifies=["_state", "_leader", "_next_index", "_match_index", "_heartbeat_event"] + NET_GHOST + [
        (_old_or_dummy("_election_timeout_event"), "_cancelled"), (_old_or_dummy("_heartbeat_event"), "_cancelled")],
    # L3 at the call site: leadership is only ever claimed by a candidate holding a quorum of votes
@@ -1061,7 +1165,7 @@ def _hb_post(s):
     return ite_b(state_of(old) == LEADER, _appends_to_all_peers(s), n_sent(s) == 0)
 
 
-fn(RaftNode, "_handle_heartbeat_tick", args={"event": Ref(Event)}, uses=[SEND_APPEND, UNIFORM], focus=node_focus, ensures=[
+fn(RaftNode, "_handle_heartbeat_tick", args={"event": Ref(Event)}, uses=[SEND_APPEND, SCHED_ET, SCHED_HB], focus=node_focus, ensures=[
     ("cancelled-ignored--leader-replicates-to-every-peer--others-send-nothing", _hb_post),
     ("no-election-or-log-effect", lambda s: unchanged(s, s.self, "_current_term", "_voted_for", "_state") & _log_untouched(s))])
 
@@ -1074,12 +1178,16 @@ def _applied_is_log_prefix(o):
 def _entries_continue_applied_prefix(s):
     """the argument is the log slice right after last_applied (what advance_commit returned)"""
     o = s.self
-    lg, E = seq_term(log_entries(o)), seq_term(s.entries)
+    lg, E = seq_term(log_entries(o)), sq(s.entries)
     return (o._last_applied >= 0) & (o._last_applied + slen(s.entries) <= slen(log_entries(o))) & forall(
         Int, lambda j: implies((0 <= j) & (j < slen(s.entries)), mk_bool(elem_eq(nth(E, j.t), nth(lg, zi(o._last_applied) + j.t)))), "j")
 
 
-fn(RaftNode, "_apply_committed", args={"entries": ENTRIES}, uses=[SM_APPLY, FUT_RESOLVE], inv=False,
+APPLY_ONLY_FRAME = ["_last_applied", "_commands_committed", "_pending_futures", "g_applied", (lambda s: s.self._state_machine, "_data"),
+                    ("*", "SimFuture", "_resolved"), ("*", "SimFuture", "_value"), ("*", "SimFuture", "g_at_term"),
+                    ("*", "SimFuture", "g_at_cmd")]
+APPLY = (RaftNode, "_apply_committed")
+fn(RaftNode, "_apply_committed", args={"entries": ENTRIES}, uses=[SM_APPLY, FUT_RESOLVE], inv=False, modifies=APPLY_ONLY_FRAME,
    requires=[("entries-are-the-log-slice-after-last-applied", _entries_continue_applied_prefix),
              ("applied-so-far-is-the-log-prefix", lambda s: _applied_is_log_prefix(s.self)),
              ("log-indices-contiguous", lambda s: contiguous(log_entries(s.self))),
@@ -1105,6 +1213,8 @@ def ae_covered(o, old, prev, E, i):
     """L5: positions prev .. prev+i-1 of the log carry the terms of entries[0..i) (and their commands, unless
     the entry already stored there had that index and term and was kept)"""
     lg, olg = seq_term(log_entries(o)), seq_term(log_entries(old))
+    note(i)                     # the request's well-formedness facts are needed at the current entry
+    note(prev + i)
 
     def body(j):
         e, r = nth(lg, zi(prev) + j.t), rec_at(E, j)
@@ -1119,7 +1229,8 @@ def ae_prefix_kept(o, old, prev):
 
 def ae_tail(o, old, prev, i):
     """either nothing was removed (the old log is a prefix of the new one) or the log ends with the last entry written"""
-    return extends(seq_term(log_entries(o)), seq_term(log_entries(old))) | (slen(log_entries(o)) == prev + i)
+    n, n0 = slen(log_entries(o)), slen(log_entries(old))
+    return ((n == ite(n0 >= prev + i, n0, prev + i)) & extends(seq_term(log_entries(o)), seq_term(log_entries(old)))) | (n == prev + i)
 
 
 def ae_log_ok(o, old):
@@ -1229,10 +1340,41 @@ def _ae_commit(s):
     return implies(_ae_ok(s), commit_of(s.self) == ite(target > commit_of(old), target, commit_of(old)))
 
 
-fn(RaftNode, "_handle_append_entries", args={"event": Ref(Event)}, uses=[SEND, UNIFORM, FIND_PEER, SM_APPLY, FUT_RESOLVE],
+def _ae_case(term_rel, prev_rel):
+    """one cell of the case split of the request (term vs my term, prev_log_index = 0 or > 0): the handler is
+    verified once per cell, in parallel (the cells are exhaustive: lemma `append-entries-case-split`)"""
+    def req(s):
+        m = md(s.event)
+        t, cur, prev = mget(m, "term"), s.self._current_term, mget(m, "prev_log_index")
+        a = {"<": t < cur, "=": t == cur, ">": t > cur}[term_rel[0]]
+        if len(term_rel) > 1:       # same term: additionally split by the node's role
+            a = a & (state_of(s.self) == {"F": FOLLOWER, "C": CANDIDATE, "L": LEADER}[term_rel[1]])
+        b = {"0": prev == 0, "+": prev > 0, "*": True}[prev_rel]
+        return a & b
+    return req
+
+
+AE_CASES = [("stale-term", "<", "*"), ("newer-term-prev-0", ">", "0"), ("newer-term-prev-pos", ">", "+")] + [
+    (f"same-term-{role}-prev-{pn}", "=" + r, p) for r, role in (("F", "follower"), ("C", "candidate"), ("L", "leader"))
+    for p, pn in (("0", "0"), ("+", "pos"))]
+
+
+def _ae_split():
+    t, cur, prev = z3.Ints("msg_term my_term prev_log_index")
+    assume(prev >= 0)           # part of the well-formedness precondition
+    oblige("cells-cover-every-request", z3.Or(t < cur, z3.And(t == cur, prev == 0), z3.And(t == cur, prev > 0),
+                                              z3.And(t > cur, prev == 0), z3.And(t > cur, prev > 0)))
+
+
+lemma("append-entries-case-split", _ae_split)
+
+for _label, _tr, _pr in AE_CASES:
+  fn(RaftNode, "_handle_append_entries", label=_label, args={"event": Ref(Event)},
+   uses=[SEND, SCHED_ET, STEP_DOWN, FIND_PEER, APPLY],
    focus=node_focus,
    requires=[("well-formed-request-with-contiguous-entries-after-prev", _ae_wellformed),
-             ("leader-agrees-with-my-committed-entries", _ae_no_conflict_with_committed)],
+             ("leader-agrees-with-my-committed-entries", _ae_no_conflict_with_committed),
+             ("case-" + _label, _ae_case(_tr, _pr))],
    ensures=[
     ("unknown-sender-ignored-else-one-reply-with-own-term-and-id", _ae_shape),
     ("success-exactly-when-term-not-stale-and-prev-entry-matches", _ae_success_iff),
@@ -1247,3 +1389,299 @@ fn(RaftNode, "_handle_append_entries", args={"event": Ref(Event)}, uses=[SEND, U
     ("L5-match-index-not-above-the-verified-prefix", _ae_match_index_not_above),
     ("L5-match-index-reports-the-whole-verified-prefix", _ae_match_index_whole),
     ("commit-index-follows-leader-commit-clamped-to-own-log", _ae_commit)])
+
+
+# ---- leader: commit rule (L6) ------------------------------------------------------------------------
+MATCHMAP = Map(Str, Int)
+COUNT_GE = z3.Function("followers_with_match_at_least", z3.ArraySort(z3.StringSort(), z3.IntSort()),
+                       z3.ArraySort(z3.StringSort(), z3.BoolSort()), z3.IntSort(), z3.IntSort())
+
+
+def card_ge(val, S, n):
+    """|{f in S : val[f] >= n}| for a finite set S, unfolded along the way S was built (definition of the
+    cardinality of a finite set: empty -> 0, adding a new element -> +1 if it qualifies)"""
+    S = z3.simplify(S)
+    if z3.is_store(S) and z3.is_true(S.arg(2)):
+        S0, k = S.arg(0), S.arg(1)
+        return card_ge(val, S0, n) + z3.If(z3.Select(S0, k), z3.IntVal(0), z3.If(z3.Select(val, k) >= n, z3.IntVal(1), z3.IntVal(0)))
+    if z3.is_const_array(S) and z3.is_false(S.arg(0)):
+        return z3.IntVal(0)
+    return COUNT_GE(val, S, n)
+
+
+def match_val(o):
+    return MATCHMAP.dt.val(field_term(o, "_match_index"))
+
+
+def match_dom(o):
+    return MATCHMAP.dt.dom(field_term(o, "_match_index"))
+
+
+def _commit_rule(s):
+    """L6: the leader advances its commit index to N only if log[N] is from its current term and N is stored
+    (according to match_index) on a strict majority of the cluster counting itself"""
+    old, new = s.old(s.self), s.self
+    N = commit_of(new)
+    return implies(N > commit_of(old), (N <= slen(log_entries(new)))
+                   & mk_bool(LE.term(ent_at(log_entries(new), N)) == zi(old._current_term))
+                   & (1 + mk_num(card_ge(match_val(old), match_dom(old), zi(N))) >= quorum_of(new)))
+
+
+def _node_inv_holds(s):
+    return (_applied_is_log_prefix(s.self) & (s.self._last_applied == commit_of(s.self))
+            & (commit_of(s.self) <= slen(log_entries(s.self))) & _futures_match_log(s.self))
+
+
+def _sm(s):
+    return s.self._state_machine
+
+
+def _lg(s):
+    return s.self._log
+
+
+APPLY_FRAME = [(_lg, "commit_index"), "_last_applied", "_commands_committed", "_pending_futures", "g_applied", (_sm, "_data"),
+               ("*", "SimFuture", "_resolved"), ("*", "SimFuture", "_value"), ("*", "SimFuture", "g_at_term"),
+               ("*", "SimFuture", "g_at_cmd")]
+
+fn(RaftNode, "_try_advance_commit", uses=[APPLY], focus=node_focus, returns=EVENTS, modifies=APPLY_FRAME, ensures=[
+    ("L6-commits-only-current-term-entries-stored-on-a-majority", _commit_rule),
+    ("commit-index-never-decreases", lambda s: commit_of(s.self) >= commit_of(s.old(s.self))),
+    ("newly-committed-entries-applied--futures-still-stand-for-their-entries", _node_inv_holds),
+    ("returns-no-events", lambda s: slen(s.result) == 0),
+    ("election-state-log-entries-and-replication-maps-untouched", lambda s: unchanged(
+        s, s.self, "_current_term", "_voted_for", "_state", "_next_index", "_match_index") & unchanged(s, s.self._log, "_entries"))])
+TRY_ADVANCE = (RaftNode, "_try_advance_commit")
+
+
+# ---- leader: AppendEntries responses (L6) ------------------------------------------------------------
+def _aer_req(s):
+    return md(s.old(s.event))
+
+
+def _aer_follower(s):
+    return mget(_aer_req(s), "from")
+
+
+def _aer_accepted(s):
+    """the response is processed at all: term not newer, node is leader, sender named"""
+    m, old = _aer_req(s), s.old(s.self)
+    return (mget(m, "term") <= old._current_term) & (state_of(old) == LEADER) & mhas(m, "from")
+
+
+def _aer_newer_term(s):
+    m, old = _aer_req(s), s.old(s.self)
+    return implies(mget(m, "term") > old._current_term, (s.self._current_term == mget(m, "term"))
+                   & (state_of(s.self) == FOLLOWER) & (n_sent(s) == 0) & _log_untouched(s)
+                   & unchanged(s, s.self, "_next_index", "_match_index"))
+
+
+def _aer_ignored(s):
+    m, old = _aer_req(s), s.old(s.self)
+    return implies((mget(m, "term") <= old._current_term) & Not(_aer_accepted(s)),
+                   unchanged(s, s.self) & unchanged(s, s.self._log) & (n_sent(s) == 0))
+
+
+def _aer_stale_term_ignored(s):
+    """L6: match_index[f] may only record what f acknowledged to THIS term's leader"""
+    m, old = _aer_req(s), s.old(s.self)
+    return implies(mget(m, "term") < old._current_term, unchanged(s, s.self, "_next_index", "_match_index")
+                   & unchanged(s, s.self._log) & (n_sent(s) == 0))
+
+
+def _aer_match(s):
+    m = _aer_req(s)
+    return mk_num(z3.If(MSG.has(m, "match_index"), MSG.acc("match_index")(m), z3.IntVal(0)))
+
+
+def _aer_success(s):
+    m, old, f = _aer_req(s), s.old(s.self), _aer_follower(s)
+    return implies(_aer_accepted(s) & (mget(m, "term") == old._current_term) & mget(m, "success"),
+                   (s.self._match_index.get(f, -1) == _aer_match(s)) & (s.self._next_index.get(f, -1) == _aer_match(s) + 1)
+                   & forall(Str, lambda x: implies(x != f, (s.self._match_index.get(x, -1) == old._match_index.get(x, -1))
+                                                   & (s.self._next_index.get(x, -1) == old._next_index.get(x, -1))), "x")
+                   & (n_sent(s) == 0))
+
+
+def _aer_failure(s):
+    m, old, f = _aer_req(s), s.old(s.self), _aer_follower(s)
+    cur = old._next_index.get(f, 1)
+    return implies(_aer_accepted(s) & (mget(m, "term") == old._current_term) & Not(mget(m, "success")),
+                   (s.self._next_index.get(f, -1) == ite(cur - 1 >= 1, cur - 1, 1)) & unchanged(s, s.self, "_match_index")
+                   & _log_untouched(s) & ite_b(n_sent(s) == 1, append_ok_to(s.self, first_sent(s), f), n_sent(s) == 0))
+
+
+AER_USES = [SEND, SCHED_ET, STEP_DOWN, FIND_PEER, TRY_ADVANCE]
+fn(RaftNode, "_handle_append_entries_response", args={"event": Ref(Event)}, uses=AER_USES, focus=node_focus,
+   requires=[("well-formed-response", lambda s: mhas(md(s.event), "term", "success") & (mk_num(
+       z3.If(MSG.has(md(s.event), "match_index"), MSG.acc("match_index")(md(s.event)), z3.IntVal(0))) >= 0))],
+   ensures=[
+    ("newer-term-makes-follower-and-nothing-else", _aer_newer_term),
+    ("not-leader-or-anonymous-response-ignored", _aer_ignored),
+    ("L6-response-of-an-older-term-never-changes-replication-state", _aer_stale_term_ignored),
+    ("success-records-exactly-the-acknowledged-match-index-for-that-follower", _aer_success),
+    ("failure-steps-next-index-back-by-one-and-resends-the-log-suffix", _aer_failure),
+    ("election-state-kept-unless-newer-term", lambda s: implies(
+        mget(_aer_req(s), "term") <= s.old(s.self)._current_term, unchanged(s, s.self, "_current_term", "_voted_for", "_state"))),
+    ("L6-commit-advances-only-by-the-commit-rule-on-the-updated-match-indices", lambda s: implies(
+        commit_of(s.self) > commit_of(s.old(s.self)),
+        mk_bool(LE.term(ent_at(log_entries(s.self), commit_of(s.self))) == zi(s.self._current_term))
+        & (1 + mk_num(card_ge(match_val(s.self), match_dom(s.self), zi(commit_of(s.self)))) >= quorum_of(s.self))))])
+
+
+# ============================================================================ E. cross-node steps (pure lemmas)
+# The per-node clauses above are composed into the property by the standard Raft argument (Ongaro &
+# Ousterhout 2014, section 5.4 / appendix); its combinatorial and order-theoretic steps are discharged here.
+def _election_safety():
+    """L2 + L3 + network ("a delivered vote was cast") => at most one leader per term, for n = 3, 4, 5.
+    L2 makes the votes of one term a FUNCTION voter -> candidate; L3 gives every leader of the term a set of
+    >= n//2+1 voters (itself included) that voted for it."""
+    for n in (3, 4, 5):
+        q = n // 2 + 1
+        vote = [z3.Int(f"vote{n}_{v}") for v in range(n)]         # whom voter v voted for in term T (L2: one value)
+        a, b = z3.Int(f"lead_a{n}"), z3.Int(f"lead_b{n}")
+        cnt = lambda c: z3.Sum([z3.If(vote[v] == c, 1, 0) for v in range(n)])
+        oblige(f"two-quorums-of-{n}-share-a-voter-hence-one-leader-per-term", z3.Implies(z3.And(cnt(a) >= q, cnt(b) >= q), a == b))
+
+
+lemma("election-safety-from-L2-L3", _election_safety)
+
+
+def _commit_meets_election():
+    """a set of >= n//2+1 nodes storing entry N (commit rule, L6) and a set of >= n//2+1 voters (L3) intersect:
+    every later leader was voted for by some node that stores the committed entry (n = 3, 4, 5)"""
+    for n in (3, 4, 5):
+        q = n // 2 + 1
+        has = [z3.Bool(f"has{n}_{v}") for v in range(n)]
+        voted_ = [z3.Bool(f"voted{n}_{v}") for v in range(n)]
+        size = lambda xs: z3.Sum([z3.If(x, 1, 0) for x in xs])
+        oblige(f"replication-majority-meets-election-quorum-{n}", z3.Implies(
+            z3.And(size(has) >= q, size(voted_) >= q), z3.Or(*[z3.And(h, v) for h, v in zip(has, voted_)])))
+
+
+lemma("leader-completeness-intersection-step", _commit_meets_election)
+
+
+def _up_to_date_order():
+    """the election restriction compares (last_term, last_index) lexicographically: a total preorder, and a
+    voter that stores an entry (T, N) only grants to candidates whose last entry is at least (T, N)"""
+    t = [z3.Int(f"lt{i}") for i in range(3)]
+    x = [z3.Int(f"li{i}") for i in range(3)]
+    ge = lambda i, j: z3.Or(t[i] > t[j], z3.And(t[i] == t[j], x[i] >= x[j]))
+    oblige("reflexive", ge(0, 0))
+    oblige("total", z3.Or(ge(0, 1), ge(1, 0)))
+    oblige("transitive", z3.Implies(z3.And(ge(0, 1), ge(1, 2)), ge(0, 2)))
+    T, N = z3.Ints("T N")
+    # voter's last entry is at least (T, N) (it stores an entry of term T at index N, terms grow along a log)
+    oblige("candidate-at-least-as-up-to-date-as-a-voter-storing-(T,N)-ends-at-or-after-(T,N)", z3.Implies(
+        z3.And(z3.Or(t[1] > T, z3.And(t[1] == T, x[1] >= N)), ge(0, 1)), z3.Or(t[0] > T, z3.And(t[0] == T, x[0] >= N))))
+
+
+lemma("election-restriction-order", _up_to_date_order)
+
+
+def _applies_agree():
+    """L7 on two nodes + log matching on the committed prefix => the same command at every commonly applied index"""
+    E = z3.DeclareSort("Cmd")
+    A = z3.ArraySort(z3.IntSort(), E)
+    la, lb, pa, pb = z3.Const("log_a", A), z3.Const("log_b", A), z3.Const("applied_a", A), z3.Const("applied_b", A)
+    na, nb, i, k = z3.Ints("n_a n_b i k")
+    assume(z3.ForAll([k], z3.Implies(z3.And(0 <= k, k < na), pa[k] == la[k])))        # L7 at node a
+    assume(z3.ForAll([k], z3.Implies(z3.And(0 <= k, k < nb), pb[k] == lb[k])))        # L7 at node b
+    assume(z3.ForAll([k], z3.Implies(z3.And(0 <= k, k < na, k < nb), la[k] == lb[k])))  # committed prefixes match
+    oblige("same-command-at-every-common-applied-index", z3.Implies(z3.And(0 <= i, i < na, i < nb), pa[i] == pb[i]))
+
+
+lemma("state-machine-safety-composition", _applies_agree)
+
+
+# ============================================================================ F. bounded native stand-in
+def _random_schedules(seed, tier):
+    """BOUNDED (not a proof): random delivery orders with loss, duplication and re-elections on real 3..5 node
+    clusters, driven through handle_event/submit exactly as NetworkLink delivers.  Checks the assumed
+    precondition of _handle_append_entries (no truncation at or below the commit index) and the cross-node
+    statements the per-node clauses compose to: one leader per term, equal applied prefixes, futures resolved
+    only with the index of their own command."""
+    import random
+    from happysimulator.core.clock import Clock
+    # a worker that verified a task before has had `__new__` set and deleted again on the registered classes,
+    # after which CPython's object.__new__ rejects constructor arguments: give them a plain __new__ back
+    for k in list(REG.classes):
+        if "__new__" not in k.__dict__:
+            k.__new__ = staticmethod(lambda cls, *a, **kw: object.__new__(cls))
+    runs, steps = (25, 400) if tier == "quick" else (200, 800)
+    viol, evals = [], 0
+    orig_trunc = Log.truncate_from
+    for run in range(runs):
+        rng = random.Random(seed * 100003 + run)
+        n = rng.choice([3, 4, 5])
+        clock = Clock(Instant.from_seconds(0))
+        net = Network(name="net")
+        net.set_clock(clock)
+
+        class SM:
+            def __init__(self):
+                self.applied = []
+
+            def apply(self, cmd):
+                self.applied.append(cmd)
+                return len(self.applied)
+        nodes = {nm: RaftNode(nm, net, state_machine=SM()) for nm in "ABCDE"[:n]}
+        for nd in nodes.values():
+            nd.set_clock(clock)
+            nd.set_peers(list(nodes.values()))
+        bad = []
+
+        def trunc(self, index, _bad=bad):
+            if 1 <= index <= len(self._entries) and index <= self.commit_index:
+                _bad.append(("truncate-at-or-below-commit", index, self.commit_index))
+            return orig_trunc(self, index)
+        Log.truncate_from = trunc
+        try:
+            flight, futs, leaders, ncmd = [], [], {}, 0
+            for step in range(steps):
+                r = rng.random()
+                nd = rng.choice(list(nodes.values()))
+                out = []
+                if r < 0.04:
+                    out = nd.handle_event(Event(time=clock.now, event_type="RaftElectionTimeout", target=nd))
+                elif r < 0.20:
+                    out = nd.handle_event(Event(time=clock.now, event_type="RaftHeartbeat", target=nd))
+                elif r < 0.30:
+                    cmd = f"c{ncmd}"
+                    ncmd += 1
+                    futs.append((cmd, nd, nd.submit(cmd)))
+                elif flight:
+                    m = flight.pop(rng.randrange(len(flight)))
+                    if rng.random() < 0.1:
+                        continue                                    # lost
+                    if rng.random() < 0.1:
+                        flight.append(m)                            # duplicated / delivered again later
+                    dst = nodes[m.context["metadata"]["destination"]]
+                    out = dst.handle_event(Event(time=clock.now, event_type=m.event_type, target=dst, daemon=m.daemon,
+                                                 context={**m.context, "metadata": dict(m.context["metadata"])}))
+                flight.extend(e for e in (out or []) if e.target is net)
+                evals += 1
+                for x in nodes.values():
+                    if x.state.name == "LEADER" and leaders.setdefault(x.current_term, x.name) != x.name:
+                        bad.append(("two-leaders", x.current_term, leaders[x.current_term], x.name))
+                sms = [x._state_machine.applied for x in nodes.values()]
+                for a in sms:
+                    for b in sms:
+                        k = min(len(a), len(b))
+                        if a[:k] != b[:k]:
+                            bad.append(("apply-divergence", a[:k], b[:k]))
+                if bad:
+                    break
+            for cmd, nd, f in futs:
+                if f.is_resolved and (nd.log.get(f.value[0]) is None or nd.log.get(f.value[0]).command != cmd):
+                    bad.append(("future-resolved-for-another-command", cmd, f.value[0]))
+        finally:
+            Log.truncate_from = orig_trunc
+        if bad:
+            viol.append({"case": bad[0][0], "run": run, "nodes": n, "detail": [str(x) for x in bad[0][1:]]})
+    return {"evaluations": evals, "violations": viol[:5]}
+
+
+PROPERTY["bounded"] = [{"name": "raft-random-schedules", "bound": "25 runs x 400 scheduler steps (quick) on 3..5 nodes, random "
+                        "delivery order with 10% loss and 10% duplication", "fn": _random_schedules}]
